@@ -47,6 +47,9 @@ IV32_LISTED = {
                                "prover; the + 1 stays below 2^32 because data_len <= 2^32 - 4)",
     "decode_level0_header": "(checksum loop, whether in place or in a helper folded in) bound = raw_data_len - 2 of a level-0/1 base header, whose length is header_len + 2 with header_len a single byte (decode_level0_header extends "
                          "the raw data to exactly that before calling); assumption A-hdr32",
+    "decode_extended_headers": "bound = raw_data_len - field_size: the raw header data never exceeds 1 MiB plus the base header at level 3 (explicit cap, C12 R4d), 64 KiB at level 2 "
+                               "(16-bit length) and, at level 1, the base header plus the extended headers read so far, each of at most 64 KiB and together bounded by the 32-bit "
+                               "compressed length they are subtracted from (C12 R4f): below 2^32 unless a level-1 header carries four gigabytes of extended headers; assumption A-hdr32",
     "skip_sfx": "bound = stream->leadin_len, which never exceeds LEADIN_BUFFER_LEN = 24 (inductive invariant leadin_len in [0,24] proved by C08 R1)",
 }
 
